@@ -206,6 +206,30 @@ def leafProds2 (p : Prod2 α) : SplitTree → Option (List (Prod2 α))
       | _, _ => none
     | _ => none
 
+/-- rayon's reduction tree of a map–reduce (`.map(f).sum()`, `.map(f).reduce(..)`) over the 1-D
+producer: every leaf folds its items sequentially starting from `e` (the `Folder`), every node
+combines the results of its two halves (the `Reducer`) -/
+def reduce1 {M : Type} (op : M → M → M) (e : M) (f : α → M) (p : Steps α) : SplitTree → Option M
+  | .leaf => some ((p.collect.map f).foldl op e)
+  | .node k l r =>
+    match split1 p k with
+    | .ok (pl, pr) =>
+      match reduce1 op e f pl l, reduce1 op e f pr r with
+      | some a, some b => some (op a b)
+      | _, _ => none
+    | _ => none
+
+/-- the same over the 2-D producer -/
+def reduce2 {M : Type} (op : M → M → M) (e : M) (f : α × α → M) (p : Prod2 α) : SplitTree → Option M
+  | .leaf => some ((p.collect.map f).foldl op e)
+  | .node k l r =>
+    match split2 p k with
+    | .ok (pl, pr) =>
+      match reduce2 op e f pl l, reduce2 op e f pr r with
+      | some a, some b => some (op a b)
+      | _, _ => none
+    | _ => none
+
 /-! ### representation conversions (`si_iterator.rs`) on raw SI values -/
 
 /-- frequency ↔ vacuum wavelength: `2π·c / x` (both directions; `twoPiC` is a parameter so the
